@@ -1,2 +1,258 @@
-use crate::Scenario;
-pub fn scenarios() -> Vec<Scenario> { vec![] }
+//! C09: DKG under a network that may deliver, in each sender's slot, any contribution that sender
+//! made for anyone in any concurrent run (or nothing).  Every participant step either fails or
+//! yields internally consistent key material; participants that complete on one common set of
+//! round-one contributions hold the same public key package (equal to what the commitments alone
+//! give) and can sign together; a round-two share is accepted only if addressed to this recipient
+//! and belonging to the round-one contribution filed for the same sender.
+
+use std::collections::BTreeMap;
+
+use frost_core::keys::dkg;
+use frost_core::keys::{KeyPackage, PublicKeyPackage, VerifiableSecretSharingCommitment};
+use serde_json::json;
+
+use crate::c01::honest_session_checks;
+use crate::c07::key_package_consistent;
+use crate::common::*;
+use crate::rng::TestRng;
+use crate::{scn, Scenario};
+
+pub fn scenarios() -> Vec<Scenario> {
+    vec![
+        scn!(scenario_public_package_from_commitments, 2),
+        scn!(scenario_network_mixes_runs, 4),
+        scn!(scenario_common_view_of_mixed_contributions, 2),
+    ]
+}
+
+/// What the published commitments alone give (with the suite's post-processing of DKG output).
+fn package_from_commitments<C: Suite>(
+    commitments: &BTreeMap<Id<C>, VerifiableSecretSharingCommitment<C>>,
+    like: &KeyPackage<C>,
+) -> Result<PublicKeyPackage<C>, Stop> {
+    let refs: BTreeMap<Id<C>, &VerifiableSecretSharingCommitment<C>> = commitments.iter().map(|(k, v)| (*k, v)).collect();
+    let raw = must(
+        PublicKeyPackage::<C>::from_dkg_commitments(&refs),
+        "PublicKeyPackage::from_dkg_commitments of the published commitments",
+    )?;
+    if !C::IS_TAPROOT {
+        return Ok(raw);
+    }
+    // the Taproot suite post-processes DKG output (even-Y + unspendable tweak); apply the same public
+    // transformation through the ciphersuite hook with a dummy key package for the untweaked key
+    let dummy = KeyPackage::<C>::new(*like.identifier(), *like.signing_share(), *like.verifying_share(), *raw.verifying_key(), *like.min_signers());
+    let (_, pkp) = need(C::post_dkg(dummy, raw), "post_dkg")?;
+    Ok(pkp)
+}
+
+pub fn scenario_public_package_from_commitments<C: Suite>(rng: &mut TestRng, p: &Params, notes: &mut Notes) -> Verdict {
+    let ids = make_ids::<C>(&p.ids)?;
+    let run = dkg_rounds::<C>(rng, &ids, p.n, p.t, false)?;
+    let fin = dkg_finish::<C>(&run, false)?;
+    let commitments: BTreeMap<Id<C>, VerifiableSecretSharingCommitment<C>> =
+        run.r1_pkg.iter().map(|(k, v)| (*k, v.commitment().clone())).collect();
+    let mut expected = None;
+    for (id, (kp, pkp)) in &fin {
+        let want = match &expected {
+            Some(w) => w,
+            None => {
+                expected = Some(package_from_commitments::<C>(&commitments, kp)?);
+                match &expected {
+                    Some(w) => w,
+                    None => return skip("internal"),
+                }
+            }
+        };
+        check(
+            pkp == want,
+            &format!("the public key package of participant {} equals what the published commitments alone give", id_hex::<C>(id)),
+            short_dbg(want),
+            short_dbg(pkp),
+        )?;
+    }
+    // a participant that holds a different commitment for one sender obtains a different package
+    let me = match ids.get(rng.below(ids.len())) {
+        Some(i) => *i,
+        None => return skip("internal"),
+    };
+    let x = match ids.iter().find(|i| **i != me) {
+        Some(i) => *i,
+        None => return skip("internal"),
+    };
+    notes.insert("participant_hex".into(), json!(id_hex::<C>(&me)));
+    notes.insert("sender_with_other_commitment_hex".into(), json!(id_hex::<C>(&x)));
+    let other = dkg_rounds::<C>(rng, &ids, p.n, p.t, false)?;
+    let mut r1 = run.r1_for(&me);
+    let mut r2 = run.r2_for(&me);
+    if let (Some(a), Some(b)) = (other.r1_pkg.get(&x), other.r2_out.get(&x).and_then(|m| m.get(&me))) {
+        r1.insert(x, a.clone());
+        r2.insert(x, b.clone());
+    }
+    let secret = match run.r1_secret.get(&me) {
+        Some(s) => s.clone(),
+        None => return skip("internal"),
+    };
+    if let Ok((s2, _)) = dkg::part2::<C>(secret, &r1) {
+        if let Ok((kp, pkp)) = dkg::part3::<C>(&s2, &r1, &r2) {
+            if let Some((_, honest_pkp)) = fin.get(&me) {
+                check(
+                    &pkp != honest_pkp,
+                    "a participant holding a different commitment for one sender derives a different public key package",
+                    "different packages",
+                    "identical packages",
+                )?;
+            }
+            key_package_consistent::<C>(&kp, &pkp, &me, p.t, "completed on a divergent round-one set")?;
+        }
+    }
+    Ok(())
+}
+
+/// Delivery choices for the slot of sender X at participant `me`.
+pub fn scenario_network_mixes_runs<C: Suite>(rng: &mut TestRng, p: &Params, notes: &mut Notes) -> Verdict {
+    let ids = make_ids::<C>(&p.ids)?;
+    // run A is the one `me` takes part in; run B is concurrent, possibly with another threshold
+    let t_b = match rng.below(4) {
+        0 if p.t < p.n => p.t + 1,
+        1 if p.t > 2 => p.t - 1,
+        _ => p.t,
+    };
+    notes.insert("threshold_of_concurrent_run".into(), json!(t_b));
+    let a = dkg_rounds::<C>(rng, &ids, p.n, p.t, false)?;
+    dkg_finish::<C>(&a, false)?;
+    let b = dkg_rounds::<C>(rng, &ids, p.n, t_b, false)?;
+    let mi = rng.below(ids.len());
+    let mut xi = rng.below(ids.len() - 1);
+    if xi >= mi {
+        xi += 1;
+    }
+    let (me, x) = match (ids.get(mi), ids.get(xi)) {
+        (Some(a), Some(b)) => (*a, *b),
+        _ => return skip("internal"),
+    };
+    let third = ids.iter().find(|i| **i != me && **i != x).copied();
+    notes.insert("participant_hex".into(), json!(id_hex::<C>(&me)));
+    notes.insert("sender_hex".into(), json!(id_hex::<C>(&x)));
+    // rank of the sender among the other senders (matters for "first t slots only" shortcuts)
+    let mut others: Vec<Id<C>> = ids.iter().filter(|i| **i != me).copied().collect();
+    others.sort();
+    notes.insert("sender_rank_among_peers".into(), json!(others.iter().position(|i| *i == x)));
+
+    let r1_choices = ["run-A", "run-B"];
+    let r2_choices = ["run-A-to-me", "run-B-to-me", "run-A-to-someone-else", "run-B-to-someone-else", "nothing"];
+    let r1c = r1_choices[rng.below(2)];
+    let mut r2c = r2_choices[rng.below(5)];
+    if third.is_none() && r2c.ends_with("someone-else") {
+        r2c = "nothing";
+    }
+    if r1c == "run-A" && r2c == "run-A-to-me" {
+        // that is the honest delivery; make it interesting
+        r2c = if rng.chance(50) { "run-B-to-me" } else { "nothing" };
+    }
+    notes.insert("round_one_slot".into(), json!(r1c));
+    notes.insert("round_two_slot".into(), json!(r2c));
+
+    let mut r1 = a.r1_for(&me);
+    let mut r2 = a.r2_for(&me);
+    if r1c == "run-B" {
+        match b.r1_pkg.get(&x) {
+            Some(pk) => {
+                r1.insert(x, pk.clone());
+            }
+            None => return skip("internal"),
+        }
+    }
+    let pick = |run: &DkgRun<C>, to: &Id<C>| run.r2_out.get(&x).and_then(|m| m.get(to)).cloned();
+    let delivered = match r2c {
+        "run-A-to-me" => pick(&a, &me),
+        "run-B-to-me" => pick(&b, &me),
+        "run-A-to-someone-else" => third.and_then(|t| pick(&a, &t)),
+        "run-B-to-someone-else" => third.and_then(|t| pick(&b, &t)),
+        _ => None,
+    };
+    match delivered {
+        Some(pk) => {
+            r2.insert(x, pk);
+        }
+        None => {
+            r2.remove(&x);
+        }
+    }
+    // the share is acceptable iff it is X's share for me from the run whose round-one package is filed
+    let share_matches = (r1c == "run-A" && r2c == "run-A-to-me") || (r1c == "run-B" && r2c == "run-B-to-me");
+
+    let secret = match a.r1_secret.get(&me) {
+        Some(s) => s.clone(),
+        None => return skip("internal"),
+    };
+    let (s2, _) = match dkg::part2::<C>(secret, &r1) {
+        Ok(x) => x,
+        Err(_) => return Ok(()), // a failing step is always acceptable
+    };
+    match dkg::part3::<C>(&s2, &r1, &r2) {
+        Err(_) => Ok(()),
+        Ok((kp, pkp)) => {
+            check(
+                share_matches,
+                &format!("part3 accepts a round-two share only if it was addressed to this recipient and belongs to the round-one contribution filed for the same sender (slot: {r1c} / {r2c})"),
+                "Err(..)",
+                "Ok(key material)",
+            )?;
+            key_package_consistent::<C>(&kp, &pkp, &me, p.t, &format!("key material completed with slot contents {r1c} / {r2c}"))
+        }
+    }
+}
+
+/// All participants (X included) use X's contribution from the concurrent run consistently: they
+/// complete on one common set of round-one contributions, so they hold the same package and can sign.
+pub fn scenario_common_view_of_mixed_contributions<C: Suite>(rng: &mut TestRng, p: &Params, notes: &mut Notes) -> Verdict {
+    let ids = make_ids::<C>(&p.ids)?;
+    let a = dkg_rounds::<C>(rng, &ids, p.n, p.t, false)?;
+    let b = dkg_rounds::<C>(rng, &ids, p.n, p.t, false)?;
+    let x = match ids.get(rng.below(ids.len())) {
+        Some(i) => *i,
+        None => return skip("internal"),
+    };
+    notes.insert("sender_using_concurrent_run_hex".into(), json!(id_hex::<C>(&x)));
+    let mut kps = BTreeMap::new();
+    let mut pkps: Vec<PublicKeyPackage<C>> = Vec::new();
+    for me in &ids {
+        // X itself continues with its run-B state; its peers' packages are the run-A ones
+        let (secret, mut r1, mut r2) = if *me == x {
+            match b.r1_secret.get(me) {
+                Some(s) => (s.clone(), a.r1_for(me), a.r2_for(me)),
+                None => return skip("internal"),
+            }
+        } else {
+            match a.r1_secret.get(me) {
+                Some(s) => (s.clone(), a.r1_for(me), a.r2_for(me)),
+                None => return skip("internal"),
+            }
+        };
+        if *me != x {
+            if let (Some(pk1), Some(pk2)) = (b.r1_pkg.get(&x), b.r2_out.get(&x).and_then(|m| m.get(me))) {
+                r1.insert(x, pk1.clone());
+                r2.insert(x, pk2.clone());
+            }
+        } else {
+            // shares addressed to X by the others were computed in run A from their run-A polynomials: fine
+            r1 = a.r1_for(me);
+            r2 = a.r2_for(me);
+        }
+        let (s2, _) = must(dkg::part2::<C>(secret, &r1), "part2 on a common (mixed-run) set of round-one contributions")?;
+        let (kp, pkp) = must(dkg::part3::<C>(&s2, &r1, &r2), "part3 on a common (mixed-run) set of contributions with matching shares")?;
+        key_package_consistent::<C>(&kp, &pkp, me, p.t, "mixed-run completion")?;
+        kps.insert(*me, kp);
+        pkps.push(pkp);
+    }
+    let first = match pkps.first() {
+        Some(f) => f.clone(),
+        None => return skip("internal"),
+    };
+    for pk in &pkps {
+        check(pk == &first, "participants completing on one common set of round-one contributions hold the same public key package", short_dbg(&first), short_dbg(pk))?;
+    }
+    let signers: Vec<Id<C>> = p.signers.iter().filter_map(|i| ids.get(*i)).copied().collect();
+    let sess = run_session::<C>(rng, &kps, &signers, &p.message, true)?;
+    honest_session_checks::<C>(&first, &sess, &p.message)
+}
